@@ -8,7 +8,7 @@ def corpus(tier, seed):
     """a covering slice of every other property corpus (each witness carries its own oracle, so agreement of every
     configuration with the oracle is agreement between the configurations)"""
     W = []
-    step = 40 if tier == 'quick' else 8
+    step = 40 if tier == 'quick' else 60    # thorough slices the (5-10x larger) thorough corpora of the other properties; sized so that the tier finishes in about half an hour
     for mod in (c01, c02, c04, c05, c14, c16, c17, c18, c19, c20, c09):
         # alternatives are judged as groups in their own property; families with an open known finding of another
         # property fail identically under every configuration, which is not a dependence on the configuration
@@ -44,10 +44,11 @@ def value_configs(tier):
     for b in (1, 2, 4):
         cs.append(Config(isas[(b + 1) % len(isas)], macros=('FASTOR_TRANS_OUTER_BLOCK_SIZE=%d' % b, 'FASTOR_TRANS_INNER_BLOCK_SIZE=%d' % b)))
     if tier != 'quick':
+        k = 0
         for isa in ALL_ISAS:
-            for std in ('gnu++14', 'gnu++17'):
-                for opt in ('-O0', '-O1', '-O2', '-O3'):
-                    cs.append(Config(isa, std=std, opt=opt))
+            for opt in ('-O0', '-O1', '-O3'):
+                k += 1
+                cs.append(Config(isa, std=('gnu++14', 'gnu++17')[k % 2], opt=opt))
     seen, out = set(), []
     for c in cs:
         if c.key() not in seen:
@@ -78,7 +79,7 @@ def targeted_corpus(macro, tier, seed, isa):
         except TypeError:
             ws = mod.witnesses(tier, seed, isa)
         ws = [w for w in ws if sel(w) and not (w.params or {}).get('or_group') and not in_open_finding_family(w)]
-        cap = 160 if tier == 'quick' else 1200
+        cap = 160 if tier == 'quick' else 400
         keep = [w for w in ws if (w.params or {}).get('wide_strided')]      # families built for exactly these macro arms are never subsampled away
         rest = [w for w in ws if not (w.params or {}).get('wide_strided')]
         W += rest[::max(1, len(rest) // cap)] + keep[::1 if tier != 'quick' else 2]
@@ -214,7 +215,7 @@ def check(tier, seed):
         big += [w for w in c17.witnesses(tier, seed) if w.params.get('M', 0) >= 9 and w.params.get('N', 0) >= 20 and w.params['type'] in ('f32', 'f64')][::5 if tier == 'quick' else 1]
         big = group_sort(big)
         bcfgs = [Config(isa, macros=('FASTOR_MATMUL_OUTER_BLOCK_SIZE=%d' % o, 'FASTOR_MATMUL_INNER_BLOCK_SIZE=%d' % i)) for isa in ALL_ISAS if isa != 'scalar'
-                 for (o, i) in ([(1, 4), (2, 5), (3, 1), (2, 3), (1, 2)] if tier == 'quick' else [(o, i) for o in (1, 2, 3) for i in (1, 2, 3, 4, 5)])]
+                 for (o, i) in ([(1, 4), (2, 5), (3, 1), (2, 3), (1, 2)] if tier == 'quick' else [(1, 1), (1, 4), (2, 5), (3, 1), (2, 3), (1, 2), (3, 5), (2, 2)])]
         R.run_all(big, bcfgs, chunk=60)
         return finish('C06', tier, seed, R, 'other',
                       rule='(a) acceptance: a covering slice of the witness programs of every other property (%d programs) is type-checked with clang++ -fsyntax-only under a grid of %d cells of {scalar, SSE2, SSE4.2, AVX, AVX2+FMA, AVX-512F, AVX-512, -mno-sse} x {C++14, C++17} x {NDEBUG, debug, runtime checks}; a program rejected under some cells and accepted under others is a violation naming the first diagnostic inside the repository. (b) values: the same programs are lowered and interpreted under %d further configurations — -O0/-O1/-O3, both standards, assertions on, and every documented tuning macro one at a time (FASTOR_USE_HADD, matmul and transpose block sizes 1..5, op-min off, FASTOR_KEEP_DP_FIXED, vectorised view assignment, zero initialisation, specialised constructors off, vectorisation off) — and each final state is compared with the witness oracle (EXACT for integer/boolean cells, ALGEBRAIC with the rounding premises for floating products/sums): agreement of every configuration with one oracle is agreement between configurations.' % (len(set(w.wit_src for w in W)), ncells, len(cfgs)),
